@@ -29,6 +29,7 @@ fi
 [ "${PHASE:-all}" = "confirm" ] && exit 0
 echo "--- our check against the change"
 git -C /repo apply "$MUT/patch.diff" || { echo "cannot apply to /repo"; exit 2; }
-cd /verif && ./check $PROP --tier $TIER > /tmp/trymut_$PROP.out 2> /tmp/trymut_$PROP.err; rc=$?
+# the evidence of a run against a patched tree must not replace the committed one
+cd /verif && ./check $PROP --tier $TIER -evidence /tmp/trymut_evidence_$PROP.json > /tmp/trymut_$PROP.out 2> /tmp/trymut_$PROP.err; rc=$?
 git -C /repo checkout -- .
 echo "check rc=$rc"; grep "^VIOLATION\|^KNOWN" /tmp/trymut_$PROP.out | head -5; grep "^violation in" /tmp/trymut_$PROP.err | head -3 | cut -c1-300; tail -1 /tmp/trymut_$PROP.err | cut -c1-200
